@@ -1445,3 +1445,148 @@ def _single_constant_argument(arguments_sdv, text):
         return False
     fragments = es[0]._string_sdv._fragment_sdvs
     return len(fragments) == 1 and fragments[0].string_constant == text
+
+
+# ============================================================================== from the resolved program (DDV) to the primitive
+
+from exactly_lib.type_val_deps.types.program.ddv.program import ProgramAdv
+from exactly_lib.type_val_deps.types.program.ddv import commands as command_ddvs
+from exactly_lib.type_val_prims.program.program import Program
+
+P_DDV = 'exactly_lib.type_val_deps.types.program.ddv'
+
+
+class StringDdvI(Interface):
+    """a resolved string (argument): its value for the directories of a test case is a pure function"""
+    methods = {'value_of_any_dependency': Method(returns=Str, pure=True),
+               'value_when_no_dir_dependencies': Method(returns=Str, pure=True)}
+
+
+LIST_DDV = Inst(ListDdv, _string_elements=ListOf(Iface(StringDdvI)))
+ARGUMENTS_DDV = Inst(ArgumentsDdv, _arguments=LIST_DDV, _validators=Any_)
+
+
+def is_values_of(strings, elements, tcds, j):
+    return len(strings) == len(elements) \
+        and ((not (0 <= j < len(elements))) or strings[j] == elements[j].value_of_any_dependency(tcds))
+
+
+M.contract('exactly_lib.type_val_deps.types.list_.list_ddv:ListDdv.value_of_any_dependency', inline=True,
+           params=dict(self=LIST_DDV, tcds=Any_), ghosts=dict(j=Int),
+           ensures={'one string per element, in order: the value of that element': lambda self, tcds, result, j:
+           is_values_of(result, self._string_elements, tcds, j)}, raises_only=())
+
+M.contract(P_DDV + '.argument:ArgumentsDdv.value_of_any_dependency', inline=True,
+           params=dict(self=ARGUMENTS_DDV, tcds=Any_), ghosts=dict(j=Int),
+           ensures={'one string per element, in order': lambda self, tcds, result, j:
+           is_values_of(result, self._arguments._string_elements, tcds, j)}, raises_only=())
+
+
+class PathDdvI(Interface):
+    methods = {'value_of_any_dependency__d': Method(returns=Iface(DescribedPathI), pure=True)}
+
+
+DRIVER_DDV_SHELL = Inst(command_ddvs.CommandDriverDdvForShell, _command_line=Iface(StringDdvI))
+DRIVER_DDV_FILE = Inst(command_ddvs.CommandDriverDdvForExecutableFile, _exe_file=Iface(PathDdvI), _validators=Any_)
+DRIVER_DDV_SYSTEM = Inst(command_ddvs.CommandDriverDdvForSystemProgram, _program=Iface(StringDdvI))
+DRIVER_DDV = Union(DRIVER_DDV_SHELL, DRIVER_DDV_FILE, DRIVER_DDV_SYSTEM)
+
+
+def driver_of(driver_ddv, driver, tcds):
+    """the primitive driver of a resolved driver: same kind; command line / program / file for this test case"""
+    if type(driver_ddv) is command_ddvs.CommandDriverDdvForShell:
+        return type(driver) is commands.CommandDriverForShell \
+            and driver._command_line == driver_ddv._command_line.value_of_any_dependency(tcds)
+    if type(driver_ddv) is command_ddvs.CommandDriverDdvForSystemProgram:
+        return type(driver) is commands.CommandDriverForSystemProgram \
+            and driver._program == driver_ddv._program.value_of_any_dependency(tcds)
+    return type(driver) is commands.CommandDriverForExecutableFile \
+        and driver._executable_file is driver_ddv._exe_file.value_of_any_dependency__d(tcds)
+
+
+for _cls, _shape in (('CommandDriverDdvForShell', DRIVER_DDV_SHELL), ('CommandDriverDdvForExecutableFile', DRIVER_DDV_FILE),
+                     ('CommandDriverDdvForSystemProgram', DRIVER_DDV_SYSTEM)):
+    M.contract('%s.commands:%s.value_of_any_dependency' % (P_DDV, _cls), inline=True,
+               params=dict(self=_shape, tcds=Any_),
+               ensures={'same kind of driver; its command line / program / file for this test case':
+                        lambda self, tcds, result: driver_of(self, result, tcds)}, raises_only=())
+
+COMMAND_DDV = Inst(CommandDdv, _command_driver=DRIVER_DDV, _arguments=ARGUMENTS_DDV, _validators=Any_)
+
+M.contract(P_DDV + '.command:CommandDdv.value_of_any_dependency', inline=True,
+           params=dict(self=COMMAND_DDV, tcds=Any_), ghosts=dict(j=Int),
+           ensures={'the Command of the resolved driver with one argument string per resolved argument, in order':
+                    lambda self, tcds, result, j:
+                    type(result) is Command and driver_of(self._command_driver, result._driver, tcds)
+                    and is_values_of(result._arguments, self._arguments._arguments._string_elements, tcds, j)},
+           raises_only=())
+
+
+class CommandDdvForProgramI(Interface):
+    target_class = CommandDdv
+    attrs = {'ident': Int, 'validators': ListOf(Any_)}
+    methods = {'value_of_any_dependency': Method(returns=Iface(lambda: CommandPrimI),
+                                                 ensures=lambda self, tcds, result: result.ident == self.ident)}
+
+
+class CommandPrimI(Interface):
+    target_class = Command
+    attrs = {'ident': Int}
+
+
+PROGRAM_DDV = Inst(ProgramDdv, _command=Iface(CommandDdvForProgramI), _stdin=ListOf(Iface(ResolvedI)),
+                   _transformations=ListOf(Iface(ResolvedI)), _validators=Any_)
+PROGRAM_ADV = Inst(ProgramAdv, _command=Iface(CommandPrimI), _stdin=ListOf(Iface(AdvElemI)),
+                   _transformation=ListOf(Iface(AdvElemI)))
+
+M.contract(P_DDV + '.program:ProgramDdv.value_of_any_dependency', inline=True,
+           params=dict(self=PROGRAM_DDV, tcds=Any_), ghosts=dict(j=Int),
+           ensures={'command, stdin parts and transformations of the resolved program, element-wise and in order':
+                    lambda self, result, j:
+                    type(result) is ProgramAdv and result._command.ident == self._command.ident
+                    and is_resolution_of(result._stdin, self._stdin, j)
+                    and is_resolution_of(result._transformation, self._transformations, j)},
+           raises_only=())
+
+M.contract(P_DDV + '.program:ProgramAdv.primitive', inline=True,
+           params=dict(self=PROGRAM_ADV, environment=Any_), ghosts=dict(j=Int),
+           ensures={'the Program of: the command, the stdin parts and the transformations, element-wise and in order':
+                    lambda self, result, j:
+                    type(result) is Program and result._command is self._command
+                    and is_resolution_of(result._stdin, self._stdin, j)
+                    and is_resolution_of(result._transformation, self._transformation, j)},
+           raises_only=())
+
+# --- commands with appended arguments
+
+M.contract('exactly_lib.type_val_prims.program.command:Command.new_with_appended_arguments', inline=True,
+           params=dict(self=COMMAND, tail_arguments=ARGUMENTS), ghosts=dict(j=Int),
+           ensures={'same driver; own arguments first, then the tail arguments': lambda self, tail_arguments, result, j:
+           type(result) is Command and result._driver is self._driver
+           and len(result._arguments) == len(self._arguments) + len(tail_arguments)
+           and ((not (0 <= j < len(self._arguments))) or result._arguments[j] == self._arguments[j])
+           and ((not (0 <= j < len(tail_arguments)))
+                or result._arguments[len(self._arguments) + j] == tail_arguments[j])},
+           raises_only=())
+
+P_CSDV = 'exactly_lib.type_val_deps.types.program.sdv.command'
+
+M.contract(P_CSDV + ':CommandSdv.new_with_additional_arguments', inline=True,
+           params=dict(self=COMMAND_SDV, additional_arguments=ARGUMENTS_SDV), ghosts=dict(j=Int),
+           ensures={'same driver; own arguments (and validators) first, then the additional ones':
+                    lambda self, additional_arguments, result, j:
+                    type(result) is CommandSdv and result._driver is self._driver
+                    and is_concat(arg_elements(result._arguments), arg_elements(self._arguments),
+                                  arg_elements(additional_arguments), j)
+                    and is_concat(result._arguments._validators, self._arguments._validators,
+                                  additional_arguments._validators, j)},
+           raises_only=())
+
+M.contract(P_CSDV + ':CommandSdv.new_with_additional_argument_list', inline=True,
+           params=dict(self=COMMAND_SDV, additional_arguments=LIST_SDV), ghosts=dict(j=Int),
+           ensures={'same driver; own arguments first, then the elements of the list':
+                    lambda self, additional_arguments, result, j:
+                    type(result) is CommandSdv and result._driver is self._driver
+                    and is_concat(arg_elements(result._arguments), arg_elements(self._arguments),
+                                  additional_arguments._elements, j)},
+           raises_only=())
